@@ -508,6 +508,21 @@ Proof.
 Qed.
 
 (* ================================================================ the round trip *)
+Lemma rd_option_u32 n body : n < 4294967296 ->
+  read_option_u32 (write_u32 n ++ body) = Ok (Some n, body).
+Proof.
+  intros Hn. unfold read_option_u32.
+  assert (Hro : read_exact_or_none 4 (write_u32 n ++ body) = Ok (Some (write_u32 n), body)).
+  { unfold read_exact_or_none.
+    pose proof (take_n_app (write_u32 n) body) as T.
+    assert (L4 : length (write_u32 n) = 4%nat) by apply le_bytes_length.
+    rewrite L4 in T. rewrite T.
+    destruct (write_u32 n ++ body) eqn:E; [|reflexivity].
+    apply (f_equal (@length N)) in E. rewrite app_length, L4 in E. cbn [length] in E. lia. }
+  rewrite (pbind_ok_intro _ _ _ _ _ Hro). unfold pret, write_u32.
+  rewrite (le_roundtrip 4 n Hn). reflexivity.
+Qed.
+
 Theorem attr_roundtrip m b :
   wf_amap m = true -> attr_encode m = Ok b -> attr_decode b = Ok (norm m).
 Proof.
@@ -516,17 +531,8 @@ Proof.
   destruct m as [|e m]; [cbn in Henc; injection Henc as <-; reflexivity|].
   unfold attr_encode in Henc. destruct (write_entries (e :: m)) as [body| | |] eqn:Hb; try discriminate.
   cbn [rbind] in Henc. apply ok_inj in Henc. subst b. rewrite (len32_as_u32 _ Hlen).
-  unfold attr_decode, read_attributes, read_option_u32.
   assert (Hn : N.of_nat (length (e :: m)) < 4294967296) by (unfold len32 in Hlen; now apply N.ltb_lt).
-  assert (Hro : read_exact_or_none 4 (write_u32 (N.of_nat (length (e :: m))) ++ body)
-                = Ok (Some (write_u32 (N.of_nat (length (e :: m)))), body)).
-  { unfold read_exact_or_none.
-    pose proof (take_n_app (write_u32 (N.of_nat (length (e :: m)))) body) as T.
-    unfold write_u32 in T at 1. rewrite le_bytes_length in T. rewrite T.
-    destruct (write_u32 (N.of_nat (length (e :: m))) ++ body) eqn:E; [|reflexivity].
-    apply (f_equal (@length N)) in E. rewrite app_length in E. unfold write_u32 in E. rewrite le_bytes_length in E. cbn in E. lia. }
-  rewrite (pbind_ok_intro _ _ _ _ _ Hro). unfold pret.
-  unfold write_u32 at 1. rewrite (le_roundtrip 4 _ Hn).
+  unfold attr_decode, read_attributes. rewrite (rd_option_u32 _ body Hn).
   pose proof (read_entries_app (e :: m) (S (length body)) [] body [] Hent Hsort) as R.
   rewrite app_nil_r in R. rewrite R; [reflexivity| | exact Hb | ].
   - intros; reflexivity.
